@@ -264,14 +264,17 @@ def _map_pair(ctx, ty, dk, extras):
     for cls, effs in md.table.items():
         if md.class_name(cls) == "default":
             dflt = effs
-    ok = len(loops) == 1 and len(dflt) == 1 and dflt[0][0] == extras
+    # the decoder appends each extra (label, value) unchanged (push: wire order = list order), the encoder walks the list in order
+    ok = len(loops) == 1 and len(dflt) == 1 and dflt[0][0] == extras and dflt[0][1]["kind"] == "call" \
+        and dflt[0][1]["callee"] == codec.VEC_PUSH \
+        and md.sym(dflt[0][1]["args"][1]) == ("tuple", (("sym", "label"), ("sym", "value")))
     if ok:
         src = loops[0].get("label_src")
         from rules.c11 import extras_source
         it = extras_source(loops[0])
         ok = it == ("field", ("param", 0), extras)
     if not ok:
-        problems.append("extras: decoder pushes to `%s`, encoder does not iterate it" % extras)
+        problems.append("extras: the decoder must append every other (label, value) to `%s` unchanged and the encoder must iterate it in order" % extras)
     ctx.ob("R-1", "pair:%s" % ty, not problems, "%s: encoder label table is the inverse of the decoder's (%d typed labels + extras)" % (ty, len(dec)),
            where=d.span, detail={"problems": problems, "decoder": dec},
            sample={"type": ty, "decoder": {k: v for k, v in dec.items()}, "encoder": {k: [(x.get("field"), x.get("kind")) for x in v] for k, v in enc.items()}})
